@@ -31,6 +31,10 @@ def run(ctx):
                            ORDERS={"11"}, EWS={"g1"} if q else {"g1", "g2"}, CKMS={"generic"} if q else {"generic", "unitary"})
     insts += relcheck.emit(ctx, RELS, PROCS={"NC", "CC"}, PROJS={"e-", "nu"}, KINDS={"F2", "F3"} if q else {"F2", "FL", "F3", "g1", "g4"},
                            FLAVS={"total"}, SCHEMES={"ZM5"} if q else {"ZM5", "FFNS3", "FFN03"}, ORDERS={"22"})
+    # the symmetries on a nuclear target (the isospin rotation acts on quark AND antiquark weights of every kernel)
+    insts += relcheck.emit(ctx, ["ChargeConjugation", "LeptonAsNeutrino", "PositronFlip"], PROCS={"NC", "CC"}, PROJS={"e-", "nu"},
+                           KINDS={"F2", "F3"}, FLAVS={"charm", "total"} if q else {"light", "charm", "bottom", "total"},
+                           SCHEMES={"FFNS3"} if q else {"ZM5", "FFNS3", "FFNS4", "FFN03", "FONLLS4"}, ORDERS={"11"}, TARGETS={"third"})
     # flavour-tagged observables on the massless path above the NEXT threshold (the pure-singlet channel opens at a_s^2)
     insts += relcheck.emit(ctx, ["TaggedSpectators", "PositronFlip", "NCReducesToEM"], PROCS={"NC"} if q else {"EM", "NC"}, PROJS={"e-"},
                            KINDS={"F2"} if q else {"F2", "FL", "F3"}, FLAVS={"charm"} if q else {"charm", "bottom"},
